@@ -41,7 +41,7 @@ def _wrap_cache(core):
             def wrapped(self, *a):
                 s = S.CUR
                 if s is not None and S.cur_thread() is not None:
-                    s.point(('cache', id(getattr(self, 'cache', self))))
+                    s.point(('cache', s.stable_id('cache', getattr(self, 'cache', self))))
                 return orig(self, *a)
             wrapped.__name__ = orig.__name__
             return wrapped
